@@ -7,6 +7,7 @@ package main
 
 import (
 	"context"
+	"encoding/json"
 	"errors"
 	"flag"
 	"fmt"
@@ -15,6 +16,9 @@ import (
 	"sync"
 	"sync/atomic"
 	"time"
+	"verif/lib/explore"
+	"verif/lib/loopworld"
+	"verif/lib/xrun"
 
 	"github.com/PowerDNS/lightningstream/config"
 	"github.com/PowerDNS/lightningstream/lmdbenv/header"
@@ -410,9 +414,27 @@ var partCfgs = map[string]ccfg{
 	"disabled":                         {Enabled: false, Keep: K, Stale: S, Insts: []string{"a"}, Deltas: []time.Duration{0}, Adv: []time.Duration{S + 1}},
 }
 
+// runLoop: the sync-loop scenario with the cleaner enabled; only the cleaner oracles (c12:) are judged here.
+func runLoop(param json.RawMessage, ctx *explore.Ctx, viols *[]xrun.Viol) string {
+	var cfg loopworld.Cfg
+	_ = json.Unmarshal(param, &cfg)
+	res := loopworld.Run(cfg, ctx)
+	for _, v := range res.Viols {
+		if loopworld.Judged(v.Sig, "c12") {
+			*viols = append(*viols, xrun.Viol{Sig: v.Sig, Msg: v.Msg})
+		}
+	}
+	return fmt.Sprintf("%s/stores=%d/loads=%d", res.Outcome, res.Stores, res.Loads)
+}
+
 func main() {
 	flag.Parse()
+	par.ServeIfWorker(map[string]par.Handler{"loop": xrun.Handler(runLoop)})
 	if v, ok := ev.ReplayRequested(); ok {
+		if strings.HasPrefix(v.Part, "sync-loop") {
+			xrun.Replay(v, runLoop)
+			return
+		}
 		var hist []string
 		if v.ReplayField("history", &hist) && !strings.HasPrefix(v.Part, "syncer-") && !strings.HasPrefix(v.Part, "receive-only") {
 			cfg, ok := partCfgs[v.Part]
@@ -562,6 +584,12 @@ func main() {
 		p.Bound = fmt.Sprintf("native and shadow x all %d sequences of length<=%d over {SendOnce, SendOnce during a storage outage, LoadOnce of the silent instance's snapshot, cleaner run}, every step an hour apart (beyond keep and stale intervals)", len(seqs), seqLen)
 		p.Samples = []any{"S L C C : c's snapshot must survive (merged but not republished)", "L S C C : may be deleted"}
 		r.AddPart(p)
+	}
+	// the cleaner goroutine inside the real Sync loop: storage errors (request timeouts) must not end it
+	for _, native := range []bool{true, false} {
+		name := "sync-loop-cleaner-" + map[bool]string{true: "native", false: "shadow"}[native]
+		xrun.Explore(r, name, xrun.Opts{Kind: "loop", Bound: ev.Pick(r, 2, 3), Budget: 30, Recycle: 4,
+			Param: loopworld.Cfg{Native: native, Cleaner: true, ListFaults: true, StoreFaults: 1, Remote2: true, AppPoints: []string{"sync.beforeInfo"}, AppOps: []string{"put-b"}, MaxVisits: 1}})
 	}
 	// receive-only syncer: no Store, no Delete, whatever the configuration says
 	{
